@@ -102,7 +102,7 @@ MUTATING = {
 
 
 class Engine:
-    def __init__(self, S: Sorts, registry, classes: Dict[str, ClassDecl], solver_timeout_ms: int = 1500):
+    def __init__(self, S: Sorts, registry, classes: Dict[str, ClassDecl], solver_timeout_ms: int = 400):
         self.S = S
         self.registry = registry  # pyvc.contracts.Registry
         self.classes = classes
@@ -117,6 +117,7 @@ class Engine:
     def feasible(self, st: State, extra=None) -> bool:
         s = z3.Solver()
         s.set("timeout", self.prune_timeout)
+        s.set("smt.mbqi", False)  # pruning only: `unknown` keeps the path
         for f in self.S.distinctness():
             s.add(f)
         for f in st.pc:
@@ -150,6 +151,10 @@ class Engine:
         if isinstance(v, VNone):
             return False
         if isinstance(v, VPy):
+            if isinstance(v.obj, tuple) and v.obj and v.obj[0] == "dictlit":
+                return len(v.obj[1]) > 0
+            if isinstance(v.obj, tuple) and v.obj and v.obj[0] == "emptyset":
+                return False
             return bool(v.obj)
         if isinstance(v, VStr):
             return bool(v.s)
@@ -209,6 +214,12 @@ class Engine:
             st.heap[key] = HeapField(ty, parts, tmpl)
         return st.heap[key]
 
+    def init_heap(self, st: State) -> None:
+        """materialise every declared heap field before the entry snapshot is taken."""
+        for cname, cd in self.classes.items():
+            for fname in cd.fields:
+                self.heap_field(st, cname, fname)
+
     def field_owner(self, cls: str, fname: str) -> Tuple[str, str]:
         seen = []
         todo = [cls]
@@ -231,7 +242,7 @@ class Engine:
 
     def read_field(self, st: State, obj: VScalar, fname: str) -> V:
         hf = self.heap_field(st, obj.ty.name, fname)
-        return rebuild(hf.template, [z3.Select(p, obj.z) for p in hf.parts])
+        return rebuild(hf.template, [z3.simplify(z3.Select(p, obj.z)) for p in hf.parts])
 
     def write_field(self, st: State, obj: VScalar, fname: str, val: V, node=None) -> None:
         hf = self.heap_field(st, obj.ty.name, fname)
@@ -239,7 +250,15 @@ class Engine:
         parts = flatten(val)
         if len(parts) != len(hf.parts):
             raise Unsupported("field %s.%s: value shape mismatch" % (obj.ty.name, fname), node)
-        hf.parts = [z3.Store(p, obj.z, q) for p, q in zip(hf.parts, parts)]
+        named = []
+        for q in parts:
+            if z3.is_const(q) or z3.is_int_value(q):
+                named.append(q)
+            else:  # name compound values so later reads (and quantifier patterns over them) stay simple
+                nq = z3.Const(fresh_name("w_%s_%s" % (obj.ty.name, fname)), q.sort())
+                st.assume(nq == q)
+                named.append(nq)
+        hf.parts = [z3.Store(p, obj.z, q) for p, q in zip(hf.parts, named)]
 
     def is_subclass(self, c: str, base: str) -> bool:
         if c == base:
@@ -302,10 +321,23 @@ class Engine:
             return self.tuple_to_list(v, ty, st, node)
         if k == "list" and isinstance(v, VList):
             return v
+        if k == "list" and isinstance(v, (VSet, VDict)):
+            return self.list_of(v, st, node)
         if k == "set" and isinstance(v, VSet):
             return v
         if k in ("dict", "odict") and isinstance(v, VDict):
+            if k == "odict" and v.pos is None:
+                raise Unsupported("plain dict where an ordered dict is declared", node)
             return v
+        if k in ("dict", "odict") and isinstance(v, VPy) and isinstance(v.obj, tuple) and v.obj[0] == "dictlit":
+            ks = scalar_sort(self.S, ty.args[0])
+            vs = scalar_sort(self.S, ty.args[1])
+            d = VDict(z3.K(ks, z3.BoolVal(False)), z3.K(ks, z3.Const(fresh_name("dflt"), vs)), ty)
+            if k == "odict":
+                d = VDict(d.dom, d.val, ty, z3.K(ks, z3.IntVal(0)), z3.IntVal(0))
+            for (kk, vv) in v.obj[1]:
+                d = self.dict_store(d, self.as_atom(kk, st, node), vv, st, node)
+            return d
         if k == "none" and isinstance(v, VNone):
             return v
         if isinstance(v, VScalar) and is_scalar(ty):
@@ -402,9 +434,10 @@ class Engine:
             st.assume(z3.ForAll([i], z3.Implies(z3.And(0 <= i, i < n), z3.And(arr_mem[arr[i]], idx(arr[i]) == i)), patterns=[arr[i]]))
             st.assume(z3.ForAll([x], z3.Implies(arr_mem[x], z3.And(0 <= idx(x), idx(x) < n, arr[idx(x)] == x)), patterns=[arr_mem[x]]))
             if isinstance(v, VDict) and v.pos is not None:
-                # insertion order: enumeration index is the stored position
-                st.assume(n == v.n)
-                st.assume(z3.ForAll([x], z3.Implies(arr_mem[x], idx(x) == v.pos[x]), patterns=[v.pos[x]]))
+                # insertion order: the enumeration is sorted by insertion stamp
+                y = z3.Const(fresh_name("y"), es)
+                st.assume(z3.ForAll([x, y], z3.Implies(z3.And(arr_mem[x], arr_mem[y]), (idx(x) < idx(y)) == (v.pos[x] < v.pos[y])),
+                                    patterns=[z3.MultiPattern(idx(x), idx(y))]))
             ety = v.ty.args[0]
             l = VList(n, arr, T.list(ety), False, True, arr_mem)
             cache = dict(cache)
@@ -735,9 +768,12 @@ class Engine:
         return sorted(fields)
 
     def havoc(self, st: State, names: List[str], fields: List[Tuple[str, str]], node=None) -> None:
+        reassigned = set(getattr(self, "_reassigned", set()))
         for nm in names:
             if nm in st.env:
                 v = st.env[nm]
+                if isinstance(v, VScalar) and v.ty.kind == "obj" and nm not in reassigned:
+                    continue  # a method call on an object mutates the heap, not the variable
                 if isinstance(v, (VPy, VStr, VNone, VTuple)):
                     if isinstance(v, VTuple):
                         raise Unsupported("loop reassigns tuple-valued variable %s" % nm, node)
@@ -764,6 +800,7 @@ class Engine:
         body_names = [x for x in self.assigned_names(s.body + [ast.Expr(value=s.target)]) if True]
         tgt_names = [x.id for x in ast.walk(s.target) if isinstance(x, ast.Name)]
         fields = self.written_fields(s.body, st)
+        self._reassigned = {n.id for n in ast.walk(ast.Module(body=list(s.body), type_ignores=[])) if isinstance(n, ast.Name) and isinstance(n.ctx, (ast.Store, ast.Del))}
         pre = st.fork()
         pre_heap = st.heap_snapshot()
         # 1. initialisation
@@ -891,12 +928,8 @@ class Engine:
     def dict_remove(self, d: VDict, k, st: State) -> VDict:
         if d.pos is None:
             return VDict(z3.Store(d.dom, k, False), d.val, d.ty)
-        # positions after k shift down by one
-        ks = d.dom.sort().domain()
-        npos = z3.Const(fresh_name("pos_rm"), d.pos.sort())
-        x = z3.Const(fresh_name("x"), ks)
-        st.assume(z3.ForAll([x], npos[x] == z3.If(z3.And(d.dom[x], d.pos[x] > d.pos[k]), d.pos[x] - 1, d.pos[x]), patterns=[npos[x]]))
-        return VDict(z3.Store(d.dom, k, False), d.val, d.ty, npos, d.n - 1)
+        # removal leaves a gap in the insertion stamps; relative order of the rest is untouched
+        return VDict(z3.Store(d.dom, k, False), d.val, d.ty, d.pos, d.n)
 
     # ------------------------------------------------------------------ expressions
 
